@@ -1,3 +1,4 @@
+\* quick: value family, exactly 4 values, flat graph and graph with a one-node subgraph
 CONSTANTS
   Layouts = {0, 3}
   Tops = {"graph"}
